@@ -11,6 +11,7 @@ import AnnetModel.Lemmas.DiffText
 import AnnetModel.Lemmas.DiffWhole
 import AnnetModel.Lemmas.DiffTextStrict
 import AnnetModel.Lemmas.Collapse
+import AnnetModel.Lemmas.Multiline
 
 /-! OBLIGATIONS
 Annet.Diff.C03_proj_new
@@ -33,6 +34,19 @@ Annet.Diff.C03_collapse_partition
 Annet.Diff.C03_collapse_group_same_text
 Annet.Diff.C03_collapse_runs_maximal
 Annet.Diff.C03_collapse_faithful
+Annet.Multiline.C03_multiline_total
+Annet.Multiline.C03_multiline_entry_iff
+Annet.Multiline.C03_multiline_children_lossless
+Annet.Multiline.C03_multiline_reports_nonempty_changes_partial
+Annet.Multiline.C03_multiline_empty_block_false
+Annet.Multiline.C03_multiline_body_emptied_false
+Annet.Multiline.C03_multiline_body_emptied_false_fixed
+Annet.Multiline.C03_multiline_self_diff_empty
+Annet.Multiline.C03_multiline_entry_iff_fixed
+Annet.Multiline.C03_multiline_children_lossless_fixed
+Annet.Multiline.C03_multiline_reports_all_fixed
+Annet.Multiline.C03_multiline_empty_block_reported_fixed
+Annet.Multiline.C03_multiline_self_diff_empty_fixed
 -/
 
 namespace Annet.Diff
@@ -230,3 +244,174 @@ example :
 
 
 end Annet.Diff
+
+/-! ### `%multiline` rules: `common.multiline_diff` (Model/Multiline.lean), the shipped Huawei rule
+`*/[rd]sa/ peer-public-key * %multiline`
+
+`multilineDiffFixed` is the code as it is (since the repair 870061c: skip rule `row in old and row in new and
+old[row] == new[row]`); `multilineDiff` is the code as it was before (old rule `old.get(row, {}) == new.get(row, {})`), kept so
+that the defect F03d stays a kernel-checked witness of the old rule.  `old` / `new` are the rows of one
+group of sibling `%multiline` rows at the top level; `none` would be the `KeyError` of `tree[item.row]`. -/
+
+namespace Annet.Multiline
+open Annet
+open Annet.Diff (Op)
+
+private def k1 : String := "rsa peer-public-key K1"
+private def k2 : String := "rsa peer-public-key K2"
+private def k3 : String := "dsa peer-public-key K3"
+private def body (hex : String) : Cfg :=
+  .mk [("public-key-code begin", .mk [(hex, .mk [])]), ("public-key-code end", .mk []), ("peer-public-key end", .mk [])]
+
+/-- `tree[item.row]` never raises `KeyError`, for either skip rule, any rows, any depth. -/
+theorem C03_multiline_total (rule : Rule) (old new : Level) : ∃ d, multilineDiffWith rule old new = some d :=
+  total rule old new
+
+/-- (a) The old rule (before 870061c): a row has an entry iff it is in `old` or in `new` and `old.get(row, {}) ≠ new.get(row, {})`;
+the entry is REMOVED iff the row is not in `new`, ADDED iff it is not in `old`, AFFECTED iff it is in both.  (No
+uniqueness hypothesis is needed: `in` and `[]` both read the first binding.) -/
+theorem C03_multiline_entry_iff (old new : Level) (d : List MItem) (h : multilineDiff old new = some d) :
+    (∀ r, (∃ i ∈ d, i.row = r) ↔
+      ((Cfg.hasKey old r = true ∨ Cfg.hasKey new r = true) ∧ sub old r ≠ sub new r)) ∧
+    (∀ i ∈ d, (i.op = .removed ↔ Cfg.hasKey new i.row = false) ∧
+              (i.op = .added ↔ Cfg.hasKey old i.row = false) ∧
+              (i.op = .affected ↔ (Cfg.hasKey old i.row = true ∧ Cfg.hasKey new i.row = true))) :=
+  ⟨fun r => by rw [entry_iff_with .head old new d h r, skip_head],
+   fun i hi => let ⟨a, b, c, _⟩ := entry_op .head old new d h i hi; ⟨a, b, c⟩⟩
+
+/-- Non-vacuity: a removed, a changed, an unchanged and an added block. -/
+example : (multilineDiff [(k1, body "AA"), (k2, body "BB"), (k3, body "CC")]
+                         [(k3, body "CC"), (k2, body "BD"), ("rsa peer-public-key K4", body "EE")]).map
+    (fun d => d.map (fun i => (i.op.name, i.row))) =
+    some [("removed", "rsa peer-public-key K1"), ("affected", "rsa peer-public-key K2"),
+          ("added", "rsa peer-public-key K4")] := by decide
+
+/-- (b) The children of an entry are the WHOLE subtree of the row — of `new` (every descendant ADDED) unless the entry
+is REMOVED, then of `old` (every descendant REMOVED): same paths at every depth, one op. -/
+theorem C03_multiline_children_lossless (old new : Level) (d : List MItem) (h : multilineDiff old new = some d)
+    (i : MItem) (hi : i ∈ d) :
+    (i.op ≠ .removed → ∃ t, Cfg.lookup new i.row = some t ∧ i.children = processMultiline .added t ∧
+        mpaths i.children = Cfg.paths t ∧ allOp .added i.children = true) ∧
+    (i.op = .removed → ∃ t, Cfg.lookup old i.row = some t ∧ i.children = processMultiline .removed t ∧
+        mpaths i.children = Cfg.paths t ∧ allOp .removed i.children = true) := by
+  obtain ⟨h1, h2⟩ := entry_children .head old new d h i hi
+  constructor
+  · intro hne
+    obtain ⟨t, ht, hc⟩ := h2 hne
+    exact ⟨t, ht, hc, by rw [hc, mpaths_process], by rw [hc, allOp_process]⟩
+  · intro he
+    obtain ⟨t, ht, hc⟩ := h1 he
+    exact ⟨t, ht, hc, by rw [hc, mpaths_process], by rw [hc, allOp_process]⟩
+
+/-- Non-vacuity: the changed block carries the new body, two levels deep, all ADDED. -/
+example : (multilineDiff [(k1, body "AA")] [(k1, body "AB")]).map flat =
+    some [("affected", ["rsa peer-public-key K1"]),
+          ("added", ["rsa peer-public-key K1", "public-key-code begin"]),
+          ("added", ["rsa peer-public-key K1", "public-key-code begin", "AB"]),
+          ("added", ["rsa peer-public-key K1", "public-key-code end"]),
+          ("added", ["rsa peer-public-key K1", "peer-public-key end"])] := by decide
+
+/-- (c) `_partial` form of "every block present in exactly one configuration is reported": true of the old rule
+when the block has at least one row below its header. -/
+theorem C03_multiline_reports_nonempty_changes_partial (old new : Level) (d : List MItem)
+    (h : multilineDiff old new = some d) (r : String) (t : Cfg) (hne : t.kids ≠ []) :
+    (Cfg.lookup old r = some t → Cfg.hasKey new r = false → ∃ i ∈ d, i.row = r ∧ i.op = .removed) ∧
+    (Cfg.lookup new r = some t → Cfg.hasKey old r = false → ∃ i ∈ d, i.row = r ∧ i.op = .added) := by
+  have hte : t ≠ Cfg.empty := by
+    intro he; rw [he] at hne; exact hne rfl
+  constructor
+  · intro ho hn
+    have hs : sub old r ≠ sub new r := by
+      simp only [sub, ho, lookup_none_of_not_hasKey hn, Option.getD_some, Option.getD_none]; exact hte
+    obtain ⟨i, hi, hr⟩ := (entry_iff_with .head old new d h r).2 ⟨Or.inl (hasKey_of_lookup ho), (skip_head ..).2 hs⟩
+    exact ⟨i, hi, hr, (entry_op .head old new d h i hi).1.2 (hr ▸ hn)⟩
+  · intro hn ho
+    have hs : sub old r ≠ sub new r := by
+      simp only [sub, hn, lookup_none_of_not_hasKey ho, Option.getD_some, Option.getD_none]; exact fun e => hte e.symm
+    obtain ⟨i, hi, hr⟩ := (entry_iff_with .head old new d h r).2 ⟨Or.inr (hasKey_of_lookup hn), (skip_head ..).2 hs⟩
+    exact ⟨i, hi, hr, (entry_op .head old new d h i hi).2.1.2 (hr ▸ ho)⟩
+
+/-- Non-vacuity: a block with a body, only in `old`. -/
+example : (multilineDiff [(k1, body "AA")] []).map (fun d => d.map (fun i => (i.op.name, i.row))) =
+    some [("removed", "rsa peer-public-key K1")] := by decide
+
+/-- F03d: the full-strength statement is FALSE of the old rule (before 870061c): a block without rows below its header that is only
+in `old` gets no entry (`odict() == {}`); likewise only in `new`. -/
+theorem C03_multiline_empty_block_false :
+    (multilineDiff [("rsa peer-public-key K1", .mk [])] []).map flat = some [] ∧
+    (multilineDiff [] [("rsa peer-public-key K1", .mk [])]).map flat = some [] := by decide
+
+/-- F03e: "a block present in both with different bodies is reported" is FALSE of `make_diff` when the new body is empty:
+the entry is AFFECTED without children, `mark_unchanged` turns it UNCHANGED, `strip_unchanged` drops it. -/
+theorem C03_multiline_body_emptied_false :
+    (multilineDiff [("rsa peer-public-key K1", .mk [("peer-public-key end", .mk [])])]
+                   [("rsa peer-public-key K1", .mk [])]).map (fun d => (flat d, flat (reported d))) =
+      some ([("affected", ["rsa peer-public-key K1"])], []) := by decide
+
+/-- F03e is untouched by the repair 870061c: the same witness for the code as it is. -/
+theorem C03_multiline_body_emptied_false_fixed :
+    (multilineDiffFixed [("rsa peer-public-key K1", .mk [("peer-public-key end", .mk [])])]
+                        [("rsa peer-public-key K1", .mk [])]).map (fun d => (flat d, flat (reported d))) =
+      some ([("affected", ["rsa peer-public-key K1"])], []) := by decide
+
+/-- (d) Unchanged rows produce no entry. -/
+theorem C03_multiline_self_diff_empty (t : Level) : multilineDiff t t = some [] := self_empty .head t
+
+/-! #### the same for the code as it is (after the repair 870061c) -/
+
+/-- (a), repaired: a row has an entry iff it is in `old` or `new` and NOT (in both with equal subtrees); ops as before. -/
+theorem C03_multiline_entry_iff_fixed (old new : Level) (d : List MItem) (h : multilineDiffFixed old new = some d) :
+    (∀ r, (∃ i ∈ d, i.row = r) ↔
+      ((Cfg.hasKey old r = true ∨ Cfg.hasKey new r = true) ∧
+        ¬ ∃ a b, Cfg.lookup old r = some a ∧ Cfg.lookup new r = some b ∧ a = b)) ∧
+    (∀ i ∈ d, (i.op = .removed ↔ Cfg.hasKey new i.row = false) ∧
+              (i.op = .added ↔ Cfg.hasKey old i.row = false) ∧
+              (i.op = .affected ↔ (Cfg.hasKey old i.row = true ∧ Cfg.hasKey new i.row = true))) :=
+  ⟨fun r => by rw [entry_iff_with .fixed old new d h r, skip_fixed],
+   fun i hi => let ⟨a, b, c, _⟩ := entry_op .fixed old new d h i hi; ⟨a, b, c⟩⟩
+
+/-- (b), repaired. -/
+theorem C03_multiline_children_lossless_fixed (old new : Level) (d : List MItem)
+    (h : multilineDiffFixed old new = some d) (i : MItem) (hi : i ∈ d) :
+    (i.op ≠ .removed → ∃ t, Cfg.lookup new i.row = some t ∧ i.children = processMultiline .added t ∧
+        mpaths i.children = Cfg.paths t ∧ allOp .added i.children = true) ∧
+    (i.op = .removed → ∃ t, Cfg.lookup old i.row = some t ∧ i.children = processMultiline .removed t ∧
+        mpaths i.children = Cfg.paths t ∧ allOp .removed i.children = true) := by
+  obtain ⟨h1, h2⟩ := entry_children .fixed old new d h i hi
+  constructor
+  · intro hne
+    obtain ⟨t, ht, hc⟩ := h2 hne
+    exact ⟨t, ht, hc, by rw [hc, mpaths_process], by rw [hc, allOp_process]⟩
+  · intro he
+    obtain ⟨t, ht, hc⟩ := h1 he
+    exact ⟨t, ht, hc, by rw [hc, mpaths_process], by rw [hc, allOp_process]⟩
+
+/-- FULL strength, repaired: every row present in exactly one configuration is reported with that op and its whole
+subtree — empty body or not. -/
+theorem C03_multiline_reports_all_fixed (old new : Level) (d : List MItem)
+    (h : multilineDiffFixed old new = some d) (r : String) :
+    (Cfg.hasKey old r = true → Cfg.hasKey new r = false → ∃ i ∈ d, i.row = r ∧ i.op = .removed) ∧
+    (Cfg.hasKey new r = true → Cfg.hasKey old r = false → ∃ i ∈ d, i.row = r ∧ i.op = .added) := by
+  constructor
+  · intro ho hn
+    have hs : skip .fixed old new r = false := (skip_fixed ..).2 (by
+      rintro ⟨a, b, _, hb, _⟩; rw [lookup_none_of_not_hasKey hn] at hb; cases hb)
+    obtain ⟨i, hi, hr⟩ := (entry_iff_with .fixed old new d h r).2 ⟨Or.inl ho, hs⟩
+    exact ⟨i, hi, hr, (entry_op .fixed old new d h i hi).1.2 (hr ▸ hn)⟩
+  · intro hn ho
+    have hs : skip .fixed old new r = false := (skip_fixed ..).2 (by
+      rintro ⟨a, b, ha, _, _⟩; rw [lookup_none_of_not_hasKey ho] at ha; cases ha)
+    obtain ⟨i, hi, hr⟩ := (entry_iff_with .fixed old new d h r).2 ⟨Or.inr hn, hs⟩
+    exact ⟨i, hi, hr, (entry_op .fixed old new d h i hi).2.1.2 (hr ▸ ho)⟩
+
+/-- The witness of F03d under the repaired rule: the empty block is reported, on either side. -/
+theorem C03_multiline_empty_block_reported_fixed :
+    (multilineDiffFixed [("rsa peer-public-key K1", .mk [])] []).map flat =
+      some [("removed", ["rsa peer-public-key K1"])] ∧
+    (multilineDiffFixed [] [("rsa peer-public-key K1", .mk [])]).map flat =
+      some [("added", ["rsa peer-public-key K1"])] := by decide
+
+/-- (d), repaired. -/
+theorem C03_multiline_self_diff_empty_fixed (t : Level) : multilineDiffFixed t t = some [] := self_empty .fixed t
+
+end Annet.Multiline
